@@ -1,1 +1,210 @@
 //! ntpd facade fragment "server": re-exports / wrappers (and per-run thread-local seams) for the world that owns it.
+//!
+//! Owner: world w1s (NTP server world). Hook H14: a simulated UDP socket with the same `recv` /
+//! `send_from_to` surface as `timestamped_socket::socket::Socket<SocketAddr, Open>`, so that the
+//! REAL `ServerTask::serve` loop (request-sized reply buffer, key set refresh, `ServerStats`
+//! accounting, ENETDOWN reopen) runs against the simulator's network. Everything the socket does
+//! is decided by the harness (per-run state installed in a thread-local before the task is
+//! spawned); nothing here draws randomness or reads a real clock.
+
+use std::collections::VecDeque;
+use std::future::Future;
+use std::net::SocketAddr;
+use std::pin::Pin;
+use std::sync::{Arc, Mutex};
+use std::task::{Context, Poll, Waker};
+
+use timestamped_socket::socket::{GeneralTimestampMode, RecvResult, Timestamp, TimestampData};
+
+pub use super::super::config::ServerConfig as DaemonServerConfig;
+pub use super::super::server::{ServerStats, ServerTask};
+
+pub const ENETDOWN: i32 = libc::ENETDOWN;
+pub const EHOSTUNREACH: i32 = libc::EHOSTUNREACH;
+
+/// What the harness hands to the socket's receive side.
+#[derive(Debug, Clone)]
+pub enum Inbound {
+    Datagram {
+        bytes: Vec<u8>,
+        remote: SocketAddr,
+        local: SocketAddr,
+        /// software receive timestamp (unix seconds, nanoseconds); `None` = the kernel gave no timestamp
+        timestamp: Option<(i64, u32)>,
+    },
+    /// `recv` fails with this raw OS error
+    Error(i32),
+}
+
+#[derive(Debug, Clone)]
+pub struct Outbound {
+    pub bytes: Vec<u8>,
+    pub from: SocketAddr,
+    pub to: SocketAddr,
+    /// the harness made this send fail (the datagram is not on the wire)
+    pub failed: bool,
+}
+
+#[derive(Debug, Default)]
+pub struct SockState {
+    pub inbox: VecDeque<Inbound>,
+    pub outbox: Vec<Outbound>,
+    /// the server task is parked in `recv` with an empty inbox
+    pub idle: bool,
+    /// number of successful `open_ip` calls / failed ones so far
+    pub opens: u64,
+    pub open_failures: u64,
+    /// the next n `open_ip` calls fail
+    pub fail_next_opens: u32,
+    /// the next n `send_from_to` calls fail
+    pub fail_next_sends: u32,
+    recv_waker: Option<Waker>,
+    idle_waker: Option<Waker>,
+}
+
+pub type SharedSock = Arc<Mutex<SockState>>;
+
+thread_local! {
+    static CURRENT: std::cell::RefCell<std::collections::BTreeMap<SocketAddr, SharedSock>> =
+        const { std::cell::RefCell::new(std::collections::BTreeMap::new()) };
+}
+
+/// Install the per-run socket state for listen address `addr` on this thread (before spawning the server task).
+pub fn install(addr: SocketAddr, state: SharedSock) {
+    CURRENT.with(|c| c.borrow_mut().insert(addr, state));
+}
+
+pub fn uninstall_all() {
+    CURRENT.with(|c| c.borrow_mut().clear());
+}
+
+/// Harness side: queue something for the server's `recv` and wake it.
+pub fn push(state: &SharedSock, item: Inbound) {
+    let w = {
+        let mut s = state.lock().unwrap();
+        s.inbox.push_back(item);
+        s.idle = false;
+        s.recv_waker.take()
+    };
+    if let Some(w) = w {
+        w.wake();
+    }
+}
+
+/// Harness side: mark the server busy (e.g. after sending on its key set channel) so that
+/// `wait_idle` waits for it to come back to `recv`.
+pub fn mark_busy(state: &SharedSock) {
+    state.lock().unwrap().idle = false;
+}
+
+/// Harness side: resolves once the server task is parked in `recv` with an empty inbox.
+pub fn wait_idle(state: &SharedSock) -> WaitIdle {
+    WaitIdle { state: state.clone() }
+}
+
+pub struct WaitIdle {
+    state: SharedSock,
+}
+
+impl Future for WaitIdle {
+    type Output = ();
+    fn poll(self: Pin<&mut Self>, cx: &mut Context<'_>) -> Poll<()> {
+        let mut s = self.state.lock().unwrap();
+        if s.idle && s.inbox.is_empty() {
+            Poll::Ready(())
+        } else {
+            s.idle_waker = Some(cx.waker().clone());
+            Poll::Pending
+        }
+    }
+}
+
+pub struct SimSocket {
+    state: SharedSock,
+    mode: GeneralTimestampMode,
+}
+
+/// Replacement for `timestamped_socket::socket::open_ip` under the verif cfg.
+pub fn open_ip(addr: SocketAddr, timestamping: GeneralTimestampMode, _reuse_addr: bool) -> std::io::Result<SimSocket> {
+    let state = CURRENT
+        .with(|c| c.borrow().get(&addr).cloned())
+        .expect("verif: open_ip for an address no simulated run installed");
+    {
+        let mut s = state.lock().unwrap();
+        if s.fail_next_opens > 0 {
+            s.fail_next_opens -= 1;
+            s.open_failures += 1;
+            return Err(std::io::Error::from_raw_os_error(libc::EADDRNOTAVAIL));
+        }
+        s.opens += 1;
+    }
+    Ok(SimSocket { state, mode: timestamping })
+}
+
+pub struct RecvFut<'a> {
+    sock: &'a SimSocket,
+    buf: &'a mut [u8],
+}
+
+impl Future for RecvFut<'_> {
+    type Output = std::io::Result<RecvResult<SocketAddr>>;
+    fn poll(self: Pin<&mut Self>, cx: &mut Context<'_>) -> Poll<Self::Output> {
+        let this = self.get_mut();
+        let mut s = this.sock.state.lock().unwrap();
+        match s.inbox.pop_front() {
+            Some(Inbound::Datagram { bytes, remote, local, timestamp }) => {
+                s.idle = false;
+                // UDP semantics: a datagram longer than the buffer is cut to the buffer
+                let n = bytes.len().min(this.buf.len());
+                this.buf[..n].copy_from_slice(&bytes[..n]);
+                let timestamp_data = TimestampData {
+                    timestamp_mode: this.sock.mode.into(),
+                    hardware: None,
+                    software: timestamp.map(|(seconds, nanos)| Timestamp { seconds, nanos }),
+                };
+                Poll::Ready(Ok(RecvResult {
+                    bytes_read: n,
+                    remote_addr: remote,
+                    local_addr: local,
+                    timestamp_data,
+                }))
+            }
+            Some(Inbound::Error(code)) => {
+                s.idle = false;
+                Poll::Ready(Err(std::io::Error::from_raw_os_error(code)))
+            }
+            None => {
+                s.idle = true;
+                s.recv_waker = Some(cx.waker().clone());
+                let w = s.idle_waker.take();
+                drop(s);
+                if let Some(w) = w {
+                    w.wake();
+                }
+                Poll::Pending
+            }
+        }
+    }
+}
+
+impl SimSocket {
+    pub fn recv<'a>(&'a self, buf: &'a mut [u8]) -> RecvFut<'a> {
+        RecvFut { sock: self, buf }
+    }
+
+    pub async fn send_from_to(&mut self, buf: &[u8], from: SocketAddr, to: SocketAddr) -> std::io::Result<TimestampData> {
+        let mut s = self.state.lock().unwrap();
+        let failed = if s.fail_next_sends > 0 {
+            s.fail_next_sends -= 1;
+            true
+        } else {
+            false
+        };
+        s.outbox.push(Outbound { bytes: buf.to_vec(), from, to, failed });
+        if failed {
+            Err(std::io::Error::from_raw_os_error(libc::ENETUNREACH))
+        } else {
+            Ok(TimestampData { timestamp_mode: self.mode.into(), hardware: None, software: None })
+        }
+    }
+}
